@@ -69,6 +69,10 @@ pub struct GenParams {
     pub tiny_chunks: bool,
     /// chunks of 8+ records (few rotations)
     pub roomy_chunks: bool,
+    /// read-only calls (dump, snapshot iteration, abandoned dump) per mille
+    pub misc_pm: u64,
+    /// update_state calls per mille
+    pub update_state_pm: u64,
 }
 
 impl Default for GenParams {
@@ -87,6 +91,8 @@ impl Default for GenParams {
             end_sync: false,
             tiny_chunks: false,
             roomy_chunks: false,
+            misc_pm: 25,
+            update_state_pm: 25,
         }
     }
 }
@@ -598,7 +604,31 @@ impl Gen {
                 let pc = self.p.clone();
                 let c = gen_config(&mut self.r, &pc);
                 out.push(Step { op: Op::Reopen(c), expect: Expect::Accept });
-            } else if x < f + s + ro + rj {
+            } else if x < f + s + ro + self.p.misc_pm {
+                // dump / snapshot iteration while writes may still be queued
+                out.push(Step { op: Op::Misc(*self.r.pick(&[2u8, 2, 3, 5])), expect: Expect::Accept });
+            } else if x < f + s + ro + self.p.misc_pm + self.p.update_state_pm {
+                // update_state with a full state that keeps last/purged (a Raft-legal use: vote/commit/user-data change)
+                let mut st = self.m.st.clone();
+                match self.r.below(3) {
+                    0 => st.vote = Some(self.pick_vote()),
+                    1 => st.user_data = Some(format!("us{}o{}", self.hist, self.opn)),
+                    _ => {
+                        if let Some(l) = st.last {
+                            if Some(l) >= st.committed {
+                                st.committed = Some(l);
+                            }
+                        }
+                    }
+                }
+                let op = Op::UpdateState(st);
+                let mut m2 = self.m.clone();
+                let (_, res) = Gen::apply_to_model(&mut m2, &op);
+                if res.is_ok() {
+                    self.m = m2;
+                    out.push(Step { op, expect: Expect::Accept });
+                }
+            } else if x < f + s + ro + self.p.misc_pm + self.p.update_state_pm + rj {
                 if let Some(st) = self.gen_rejected() {
                     // a batch whose k-th entry is refused still applies the entries before it
                     let mut m2 = self.m.clone();
